@@ -124,7 +124,7 @@ func (t *Topo) Run(ts time.Time, rng *rand.Rand, maxLen int,
 	var deliver func(b *seg.PathSegment, at addr.IA, ingress uint16, typ topology.LinkType)
 	deliver = func(b *seg.PathSegment, at addr.IA, ingress uint16, typ topology.LinkType) {
 		a := t.ASes[at]
-		peers := a.SortedIfs(topology.Peer)
+		peers := t.ActivePeers(at)
 		term := b.ShallowCopy()
 		if e := ext[at].Extend(ctx, term, ingress, 0, peers); e != nil {
 			fail(e)
@@ -153,7 +153,7 @@ func (t *Topo) Run(ts time.Time, rng *rand.Rand, maxLen int,
 	}
 	for _, c := range t.Cores() {
 		a := t.ASes[c]
-		peers := a.SortedIfs(topology.Peer)
+		peers := t.ActivePeers(c)
 		for _, typ := range []topology.LinkType{topology.Child, topology.Core} {
 			for _, eg := range a.SortedIfs(typ) {
 				b, e := seg.CreateSegment(ts, uint16(rng.Intn(1<<16)))
